@@ -837,6 +837,20 @@ where
 #[derive(Copy, Clone)]
 pub struct Memoized<A> {
     pub(crate) parser: A,
+    // Identifies this memoized parser (and its copies) in the memo table
+    pub(crate) id: usize,
+}
+
+#[cfg(feature = "memoization")]
+impl<A> Memoized<A> {
+    pub(crate) fn new(parser: A) -> Self {
+        use core::sync::atomic::{AtomicUsize, Ordering};
+        static NEXT_ID: AtomicUsize = AtomicUsize::new(0);
+        Self {
+            parser,
+            id: NEXT_ID.fetch_add(1, Ordering::Relaxed),
+        }
+    }
 }
 
 #[cfg(feature = "memoization")]
@@ -850,11 +864,8 @@ where
     #[inline(always)]
     fn go<M: Mode>(&self, inp: &mut InputRef<'src, '_, I, E>) -> PResult<M, O> {
         let before = inp.cursor();
-        // TODO: Don't use address, since this might not be constant?
-        let key = (
-            I::cursor_location(&before.inner),
-            &self.parser as *const _ as *const () as usize,
-        );
+        // The parser's address is no use as a key: a zero-sized parser, or a parser and its first field, share one
+        let key = (I::cursor_location(&before.inner), self.id);
 
         match inp.memos.entry(key) {
             hashbrown::hash_map::Entry::Occupied(o) => {
